@@ -119,3 +119,65 @@ def f_b64decode(it, s, altchars=None, validate=False):
     if altchars is not None or (validate is not False and it.truthy(validate)):
         raise Unsupported("b64decode(altchars/validate)")
     return _A.f_a2b_base64(it, s)
+
+
+# Native oracles for the uninterpreted codec functions used by props/C41.py's summaries of mitmproxy.net.encoding /
+# infer_content_encoding (only used to obtain replayable models, never for proving).
+from .lib import UF_ORACLES as _ORACLES
+
+
+def _l1b(s):
+    return s.encode("latin-1")
+
+
+def _o_try(f, default):
+    def g(*a):
+        try:
+            return f(*a)
+        except Exception:  # noqa: BLE001
+            return default
+
+    return g
+
+
+def _o_known(enc):
+    from mitmproxy.net import encoding as E
+
+    try:
+        E.encode("x", enc) if enc not in ("gzip", "br", "deflate", "zstd", "identity") else E.encode(b"x", enc)
+        return True
+    except Exception:  # noqa: BLE001
+        return False
+
+
+def _o_infer(ct):
+    from mitmproxy.net.http import headers as H
+
+    return H.infer_content_encoding(ct)
+
+
+def _o_text_encode(text, enc):
+    from mitmproxy.net import encoding as E
+
+    return E.encode(text, enc)
+
+
+def _o_coding_encode(data, enc):
+    from mitmproxy.net import encoding as E
+
+    return E.encode(_l1b(data), enc)
+
+
+def _o_coding_decode(data, enc):
+    from mitmproxy.net import encoding as E
+
+    return E.decode(_l1b(data), enc)
+
+
+_ORACLES.setdefault("codec_known", _o_known)
+_ORACLES.setdefault("infer_charset", _o_try(_o_infer, "latin-1"))
+_ORACLES.setdefault("text_encode", _o_try(_o_text_encode, b""))
+_ORACLES.setdefault("coding_encode", _o_try(_o_coding_encode, b""))
+_ORACLES.setdefault("coding_decode", _o_try(_o_coding_decode, b""))
+_ORACLES.setdefault("encode_utf-8_surrogateescape", _o_try(lambda s: s.encode("utf-8", "surrogateescape"), b""))
+_ORACLES.setdefault("iso_timestamp", _o_try(lambda s: int(_dt.datetime.fromisoformat(s).timestamp()), 0))
